@@ -152,11 +152,12 @@ func refStep(b *builtSpec, st *State, orig match.Bindings, pending interface{}) 
 //	2 branch-target variables: symbolic target names and bindings
 //	3 matching: one branch with an arbitrary (lazy, symbolic strings) pattern against message/bindings
 //	4 combination: action + guarded vocabulary branch + error settings
+//	5 branch-target variables bound by the branch itself: vocabulary pattern and/or guard, "@?x" / "@k" targets
 func c04Opts() (o specOpts, msg verif.Opts, bsWidth int) {
 	msg = verif.Opts{Depth: 1, Width: 1, Finite: true, NoVar: true, NoVarKeys: true, Pool: poolKeys, ValPool: poolValues}
 	bsWidth = 1
 	thorough := verif.Tier() > 0
-	slice := verif.Choose("slice", 5)
+	slice := verif.Choose("slice", 6)
 	verif.Note("slice-" + string(rune('0'+slice)))
 	switch slice {
 	case 0:
@@ -186,6 +187,10 @@ func c04Opts() (o specOpts, msg verif.Opts, bsWidth int) {
 			o.patWidth = 2
 			msg.Width = 2
 		}
+	case 5:
+		o = specOpts{actionMode: 0, noNilBranches: true, branches: 1, patMode: 1, withGuards: true, grdKinds: []int{aIdent, aSet, aNilBs}, fixedErr: true, pooled: true, small: true}
+		msg = verif.Opts{Depth: 1, Width: 1, Finite: true, NoVar: true, NoVarKeys: true, Pool: []string{"a"}, ValPool: []string{"n1", "zz"},
+			Tags: verif.TMap | verif.TStr, Leaf: verif.TStr | verif.TF64}
 	default:
 		o = specOpts{actionMode: 1, noNilBranches: true, noMessage: true, branches: 1, patMode: 1, withGuards: true,
 			actKinds: []int{aSet, aFail, aNilBs}, grdKinds: []int{aIdent, aNilBs, aFail}, fixedTarget: true, pooled: true}
